@@ -58,15 +58,23 @@ def observe_expr(rid, text=None, terms=None):
     return row
 
 
-def observe_placeholder(rid, pre, post, c, scratch):
-    """command line --tags='<pre>{config.tags}<post>', config file tags = c"""
+def observe_placeholder(rid, pre, post, c, scratch, c_ini=None, stale=False):
+    """command line --tags='<pre>{config.tags}<post>', config file tags = c (c_ini: the text written to the file when it is
+    not c itself, e.g. the several-lines form of a conjunction); stale: a Configuration with the OTHER dialect (v1) was
+    constructed in this process just before -- its protocol must not leak into this construction"""
     from behave.configuration import Configuration
+    from behave.tag_expression import TagExpressionProtocol
     row = {"id": rid, "kind": "ph", "pre": chars(pre), "post": chars(post), "c": chars(c), "err": False, "tt": [], "exc": ""}
     cwd = os.getcwd()
     d = tempfile.mkdtemp(dir=scratch)
     try:
+        if stale:
+            try:
+                Configuration(command_args=["--tags=a,-b"], load_config=False, tag_expression_protocol=TagExpressionProtocol.V1)
+            except Exception:
+                pass
         with open(os.path.join(d, "behave.ini"), "w") as fh:
-            fh.write("[behave]\ntags = %s\ntag_expression_protocol = v2\n" % c)
+            fh.write("[behave]\ntags = %s\ntag_expression_protocol = v2\n" % (c if c_ini is None else c_ini))
         os.chdir(d)
         try:
             config = Configuration(command_args=["--tags=" + pre + "{config.tags}" + post])
@@ -134,8 +142,13 @@ def run(chk):
             pre, post = ctxs[rid % len(ctxs)]
             for c in ("".join(case["min"]), "".join(case["at"])):
                 rid += 1
-                rows.append(observe_placeholder(rid, pre, post, c, scratch))
-                meta[rid] = {"form": "placeholder", "input": pre + "{config.tags}" + post, "config_tags": c}
+                rows.append(observe_placeholder(rid, pre, post, c, scratch, stale=rid % 3 == 0))
+                meta[rid] = {"form": "placeholder", "input": pre + "{config.tags}" + post, "config_tags": c, "stale_v1_configuration_before": rid % 3 == 0}
+            # configured tags in several-lines form (a conjunction of the lines)
+            mn = "".join(case["min"])
+            rid += 1
+            rows.append(observe_placeholder(rid, pre, post, "(%s) and (@zb)" % mn, scratch, c_ini="%s\n    @zb" % mn, stale=rid % 2 == 0))
+            meta[rid] = {"form": "placeholder", "input": pre + "{config.tags}" + post, "config_tags": [mn, "@zb"], "stale_v1_configuration_before": rid % 2 == 0}
     finally:
         shutil.rmtree(scratch, ignore_errors=True)
     TagExpressionProtocol.use(TagExpressionProtocol.DEFAULT)
